@@ -267,6 +267,8 @@ def analyzer_histories(ctx: Ctx, rng) -> None:
     names = ["idleherald0", "idleherald1", "plain", "lossy", "heralded_sub", "herald_out0", "herald_out2", "herald_in0"]
     rulesets = [None, [[0], [0, 1]], [[1], [1]], [[0, 1], [1, 2]]]
     for _ in range(ctx.n(25, 400)):
+        if ctx.out_of_time():
+            break
         fam, p = circuits(None)
         an = None
         cur = {"circuit": rng.choice(names), "ps": None}
@@ -335,6 +337,8 @@ def run(ctx: Ctx) -> None:
     N = ctx.n(120, 2500)
     rng = ctx.rng
     for i in range(N):
+        if ctx.out_of_time():
+            break
         kind = "sampler" if rng.random() < 0.6 else "quick"
         steps = gen_history(ctx, rng, kind)
         probs = run_history(ctx, kind, steps)
